@@ -159,9 +159,11 @@ func (e *verifEnv) observePending() {
 func (e *verifEnv) addPending(t, p int, neighbors []int) {
 	var ns []core.PeerID
 	mutual := 0
+	// the whole list counts, however long it is and wherever the connected
+	// peers stand in it; indices >= verifMaxNP are peers we never heard of
 	for _, q := range neighbors {
 		ns = append(ns, verifPeer(q))
-		if e.g[t][q].status != verifNone {
+		if q < verifMaxNP && e.g[t][q].status != verifNone {
 			mutual++
 		}
 	}
@@ -235,19 +237,32 @@ func (e *verifEnv) advance() {
 // entries must never change), then the state check.
 func (e *verifEnv) connStep() {
 	const t = 0
-	nAdd := e.np * 2
+	// neighbour lists reported by the remote handshake: none; every other
+	// peer; the same preceded / followed by two peers unknown to us (the list
+	// is then longer than any MaxOpenConnectionsPerTorrent used here);
+	// thorough also one unknown peer on either side
+	shapes := verif.Bound("neighbour_list_shapes", 4, 5)
+	nAdd := e.np * shapes
 	c := verif.Choice("op", nAdd+e.np+2*e.np*verifNV)
 	switch {
 	case c < nAdd:
-		p, withNb := c/2, c%2
-		var nb []int
-		if withNb == 1 {
-			// neighbours: every other peer
-			for q := 0; q < e.np; q++ {
-				if q != p {
-					nb = append(nb, q)
-				}
+		p, shape := c/shapes, c%shapes
+		var others []int
+		for q := 0; q < e.np; q++ {
+			if q != p {
+				others = append(others, q)
 			}
+		}
+		var nb []int
+		switch shape {
+		case 1:
+			nb = others
+		case 2:
+			nb = append([]int{verifMaxNP + 1, verifMaxNP + 2}, others...)
+		case 3:
+			nb = append(append(nb, others...), verifMaxNP+1, verifMaxNP+2)
+		case 4:
+			nb = append(append([]int{verifMaxNP + 1}, others...), verifMaxNP+2)
 		}
 		e.addPending(t, p, nb)
 	case c < nAdd+e.np:
